@@ -338,6 +338,8 @@ class GEstimationSNM:
         self.psi_labels = snm.columns.values.tolist()  # Grabs labels for the solved psi values
 
         if solver == 'closed':
+            self._scipy_solver_obj = None
+            self._alphas = None
             # Pulling array of outcomes with the interaction terms (copy and rename column to get right interactions)
             yf = df.copy().drop(columns=[self.exposure])
             yf = yf.rename(columns={self.outcome: self.exposure})
